@@ -14,5 +14,5 @@ Extraction "db_model.ml"
   session_key shadow_key index_key notification_key is_internal
   send_all load_all loader_new loader_dir
   validate_request leader_write leader_restart apply_log init_node
-  step_new init_sys
+  step_new init_sys tstep alloc_counter init_tracker
   trim trim_state dispatch serve session client_new client_request client_request_o17 client_recv_all.
